@@ -15,6 +15,7 @@ def main():
         res = list(ex.map(corpus.run_one, files))
     tag = os.path.basename(wt)
     for f, (name, meta, j) in zip(files, res):
+        name = os.path.basename(f)[:-5]
         if 'error' in j:
             print('%s %s ERROR %s' % (tag, name, j['error'][:300]))
             continue
